@@ -65,7 +65,7 @@ class Contracts:
                     raise Undecided("%s:%d: bad section header" % (fname, ln))
                 item, anchor = parts[0], parts[1:]
                 a0 = anchor[0]
-                if a0 in ("ret", "t8", "t8p", "t8o", "t10", "foriter", "external", "skip_body", "trait", "rename", "strip_mut", "t14", "nocanary"):
+                if a0 in ("ret", "t8", "t8p", "t8o", "t10", "foriter", "external", "skip_body", "trait", "rename", "strip_mut", "t14", "nocanary", "effects", "effects_pass", "effects_sig"):
                     self.flags.setdefault(item, {}).setdefault(a0, []).append(anchor[1:])
                     cur = None
                     continue
@@ -305,6 +305,24 @@ def emit_fn(data, it, ckey, C, tlog, anchors_used, canary=False):
         parts = key.split()
         if parts[0] in ("spec", "attrs", "entry"):
             continue
+        if parts[0] == "subst":
+            # T18: literal expression rewrites `FROM => TO` (one per line) for spellings Verus cannot type (e.g. the
+            # deref-coercion cast `(&s as &str)` == `s.as_str()`); every occurrence in the body; none found = lost anchor
+            for line in text.splitlines():
+                if "=>" not in line:
+                    continue
+                frm, to = [x.strip() for x in line.split("=>", 1)]
+                sig0 = f["inputs"][0]["start"] if f["inputs"] else f["body_open"]
+                body = data[sig0:f["body_close"]]      # parameter list + return type + body
+                n = 0
+                for m in re.finditer(re.escape(frm.encode()), body):
+                    ed.replace(sig0 + m.start(), sig0 + m.end(), to)
+                    n += 1
+                if n == 0:
+                    raise Undecided("lost anchor: `%s` not found in %s" % (frm, it["path"]))
+                tlog.append({"t": "T18", "item": it["path"], "from": frm, "to": to, "occurrences": n})
+            anchors_used.add(key)
+            continue
         if parts[0] == "loop":
             n = int(parts[1])
             if n not in loops:
@@ -429,6 +447,35 @@ def emit_fn(data, it, ckey, C, tlog, anchors_used, canary=False):
                      "note": ("E is an OWNED std collection that is not used after the loop: iterated by reference instead of by value; the body type-checks "
                               "with `&T` items (auto-ref on method calls), the elements are dropped after the loop instead of one by one")
                              if "owned" in t8 else "E is a shared reference to a std collection: IntoIterator for &C is C::iter()"})
+    # T17: effect log.  The function gets a trailing ghost parameter `Tracked(vx_log): Tracked<&mut VxLog>`; the message
+    # argument of every call named in `effects` is wrapped in `vx_note(.., Tracked(vx_log))` (identity at run time, appends
+    # eff_of(message) to the ghost log); calls named in `effects_pass` get the log as a trailing argument.
+    eff_names = set(x for fl in C.flag(ckey, "effects") for x in fl)
+    pass_names = set(x for fl in C.flag(ckey, "effects_pass") for x in fl)
+    if eff_names or pass_names or C.flag(ckey, "effects_sig"):
+        if not f["inputs"]:
+            raise Undecided("T17: %s has no parameters" % it["path"])
+        ed.insert(f["inputs"][-1]["end"], ", Tracked(vx_log): Tracked<&mut VxLog>", order=-2)
+        nw = npass = 0
+        for c in f.get("calls", []):
+            if c.get("in_closure"):
+                if c["name"] in eff_names or c["name"] in pass_names:
+                    raise Undecided("unsupported construct: effectful call `%s` inside a closure / async block of %s" % (c["name"], it["path"]))
+                continue
+            if c["name"] in eff_names and c.get("method"):
+                if len(c["args"]) != 1:
+                    raise Undecided("T17: `%s` call with %d arguments in %s" % (c["name"], len(c["args"]), it["path"]))
+                a = c["args"][0]
+                ed.insert(a["start"], "vx_note(", order=-2)
+                ed.insert(a["end"], ", Tracked(vx_log))", order=-2)
+                nw += 1
+            elif c["name"] in pass_names:
+                if not c["args"]:
+                    raise Undecided("T17: `%s` call without arguments in %s" % (c["name"], it["path"]))
+                ed.insert(c["args"][-1]["end"], ", Tracked(vx_log)", order=-2)
+                npass += 1
+        tlog.append({"t": "T17", "item": it["path"], "wrapped_calls": nw, "passed_on": npass,
+                     "note": "ghost effect log threaded through the signature; message arguments of %s wrapped in vx_note (run-time identity)" % sorted(eff_names)})
     for fi in C.flag(ckey, "foriter"):
         n = int(fi[0]); nm = fi[1]
         if n not in loops or loops[n]["kind"] != "for":
